@@ -140,3 +140,52 @@ prop(
         "values produced on the error path are not compared (only the error class and text)",
     ],
 )
+
+prop(
+    "C08",
+    timeout={"quick": 300, "thorough": 3000},
+    rule="seeded chains of 2..8 uses of one Message (start: new / New() / pre-sized buffer); each use is a decode (Decode, Write, "
+         "UnmarshalBinary, ReadFrom, CloneTo into it; 1 in 8 of a mutated, possibly failing input) or a build (Build with setters incl. "
+         "integrity/fingerprint, Reset+WriteHeader+Add, set fields+Encode) of a random message, one third derived from the previous one "
+         "with values 3 bytes shorter..longer. Before each use Raw[len:cap] and Attributes[len:cap] are poisoned; the same operation is "
+         "applied to a fresh Message{Type,TransactionID}; Raw and struct content must be equal; then every caller buffer is overwritten "
+         "and the message must not change; MarshalBinary/CloneTo results must survive scribbling over the source. evaluations = uses; "
+         "distinct_nontrivial = distinct chains",
+    assumptions=[
+        "the fresh twin of a ReadFrom use gets the same Raw capacity (ReadFrom reads into the capacity it is given)",
+        "the state after a failed use is unspecified and only serves as 'previous content' for the next use",
+    ],
+)
+
+prop(
+    "C09",
+    configs={"quick": ["rel", "dbg"], "thorough": ["rel", "dbg"]},
+    timeout={"quick": 300, "thorough": 3000},
+    rule="every text setter (USERNAME 513, REALM/NONCE/SOFTWARE 763, ERROR-CODE reason 763, TextAttribute.AddToAs with limit 10) at every "
+         "length 0..limit+300; 7 address setters x IP length 0..20 (nil and empty included); ErrorCode.AddTo for every code 0..999 plus "
+         "out-of-range values; MessageIntegrity.AddTo with a FINGERPRINT-typed attribute at every position; Build with a failing setter "
+         "(4 kinds) at every index and optionally a second failing one later. Each against freshly generated preceding messages "
+         "(5 quick / 60 thorough per point). Oracle: hard-coded limit table for accept/reject and error class, before/after snapshot "
+         "of Raw/Length/Attributes for atomicity, call counters for 'Build stops'. evaluations = setter calls; distinct_nontrivial = "
+         "distinct (setter, boundary value) points",
+    assumptions=[
+        "limits pinned in the harness: USERNAME 513, others 763; the 17 codes with a default reason are listed in the harness",
+    ],
+)
+
+prop(
+    "C18",
+    configs={"quick": ["rel", "race"], "thorough": ["rel", "race"]},
+    batches={"quick": 8, "thorough": 16},
+    race_batches={"quick": 4, "thorough": 8},
+    timeout={"quick": 300, "thorough": 3000},
+    max_counters=["max_goroutines"],
+    rule="seeded programs acquire(key) / write in random chunkings / sum (with a prefix buffer) / reset / more writes / sum / put over the SHA-1 "
+         "and SHA-256 pools: keys nil, 0..64 B, 63/64/65 B, 65..300 B, alternating long/short/empty between consecutive acquires; "
+         "message segments of 0,1,55,56,63,64,65,119,128 and random <=4096 bytes; (1) sequential, (2) 2..16 goroutines sharing the "
+         "pools, (3) MessageIntegrity AddTo/Check from 16 goroutines. Every digest is compared with crypto/hmac. The race build runs "
+         "the same workload under the race detector. evaluations = programs; distinct_nontrivial = distinct step-name sequences "
+         "(sequential) plus concurrent rounds",
+    assumptions=["stdlib crypto/hmac is the RFC 2104 reference",
+                 "sync.Pool placement is up to the runtime; the evidence counter acquires_that_returned_a_recycled_object reports how often reuse was actually observed"],
+)
